@@ -5,6 +5,7 @@ import ast, importlib, time, json, os, random
 from multiprocessing import Pool
 
 PROPS = [f"C{i:02d}" for i in range(1, 21)]
+MODE = os.environ.get("FUZZ_MODE", "rename")         # rename | ifswap | uncomp
 
 
 def rename_in_function(src, funcname, clsname, old, new):
@@ -38,6 +39,82 @@ def rename_in_function(src, funcname, clsname, old, new):
     return ast.unparse(tree)
 
 
+def swap_if_in_function(src, funcname, clsname, ordinal):
+    """the ordinal-th `if c: A else: B` (with an else that is not an elif chain) of the function rewritten as
+    `if not (c): B else: A` - behaviour-preserving by construction"""
+    tree = ast.parse(src)
+    target = None
+    for node in ast.walk(tree):
+        if isinstance(node, ast.ClassDef) and clsname and node.name == clsname:
+            for c in node.body:
+                if isinstance(c, ast.FunctionDef) and c.name == funcname:
+                    target = c
+        if not clsname and isinstance(node, ast.FunctionDef) and node.name == funcname and target is None:
+            target = node
+    if target is None:
+        return None
+    ifs = [n for n in ast.walk(target) if isinstance(n, ast.If) and n.orelse and not (len(n.orelse) == 1 and isinstance(n.orelse[0], ast.If))]
+    if ordinal >= len(ifs):
+        return None
+    n = ifs[ordinal]
+    n.test = ast.UnaryOp(op=ast.Not(), operand=n.test)
+    n.body, n.orelse = n.orelse, n.body
+    ast.fix_missing_locations(tree)
+    return ast.unparse(tree)
+
+
+def uncomp_in_function(src, funcname, clsname, ordinal):
+    """the ordinal-th `x = [e for t in it (if c)]` of the function rewritten as `x = []` + an append loop (loop variables get
+    fresh names, so nothing leaks into the function's scope that was not there before)"""
+    tree = ast.parse(src)
+    target = None
+    for node in ast.walk(tree):
+        if isinstance(node, ast.ClassDef) and clsname and node.name == clsname:
+            for c in node.body:
+                if isinstance(c, ast.FunctionDef) and c.name == funcname:
+                    target = c
+        if not clsname and isinstance(node, ast.FunctionDef) and node.name == funcname and target is None:
+            target = node
+    if target is None:
+        return None
+    sites = []
+    for parent in ast.walk(target):
+        for fld in ("body", "orelse", "finalbody"):
+            b = getattr(parent, fld, None)
+            if isinstance(b, list):
+                for i, st in enumerate(b):
+                    if isinstance(st, ast.Assign) and len(st.targets) == 1 and isinstance(st.targets[0], ast.Name) and \
+                            isinstance(st.value, ast.ListComp) and len(st.value.generators) == 1 and not st.value.generators[0].is_async:
+                        sites.append((b, i))
+    if ordinal >= len(sites):
+        return None
+    b, i = sites[ordinal]
+    st = b[i]
+    comp = st.value
+    g = comp.generators[0]
+    x = st.targets[0].id
+    # the comprehension must not read x itself (x = [f(x, i) for i in ...])
+    if any(isinstance(n, ast.Name) and n.id == x for n in ast.walk(comp)):
+        return None
+    names = {n.id for n in ast.walk(g.target) if isinstance(n, ast.Name)}
+    ren = {n: f"_c{ordinal}_{n}" for n in names}
+    for part in [comp.elt, g.target] + list(g.ifs):
+        for n in ast.walk(part):
+            if isinstance(n, ast.Name) and n.id in ren:
+                n.id = ren[n.id]
+    app = ast.Expr(ast.Call(func=ast.Attribute(value=ast.Name(id=x, ctx=ast.Load()), attr="append", ctx=ast.Load()), args=[comp.elt], keywords=[]))
+    inner = [app]
+    for c in reversed(g.ifs):
+        inner = [ast.If(test=c, body=inner, orelse=[])]
+    loop = ast.For(target=g.target, iter=g.iter, body=inner, orelse=[])
+    for n in ast.walk(loop.target):
+        if isinstance(n, ast.Name):
+            n.ctx = ast.Store()
+    b[i:i + 1] = [ast.Assign(targets=[ast.Name(id=x, ctx=ast.Store())], value=ast.List(elts=[], ctx=ast.Load())), loop]
+    ast.fix_missing_locations(tree)
+    return ast.unparse(tree)
+
+
 def job(a):
     prop, tname, qual, old = a
     from pyvc.repo import Repo
@@ -54,10 +131,15 @@ def job(a):
     if not os.path.exists(os.path.join(rp0.root if hasattr(rp0, "root") else "/repo", path)):
         path = modqual.replace(".", "/") + "/__init__.py"
     cls = clsqual.rsplit(".", 1)[1] if clsqual else None
-    new = old + "_rn"
+    new = (old + "_rn") if isinstance(old, str) else None
 
     def ap(s):
-        out = rename_in_function(s, fdef.name, cls, old, new)
+        if isinstance(old, int) and MODE == "uncomp":
+            out = uncomp_in_function(s, fdef.name, cls, old)
+        elif isinstance(old, int):
+            out = swap_if_in_function(s, fdef.name, cls, old)
+        else:
+            out = rename_in_function(s, fdef.name, cls, old, new)
         if out is None:
             raise RuntimeError("rename not applicable")
         return out
@@ -98,8 +180,18 @@ def main():
             params = {a.arg for a in r[0].args.args}
             names = sorted(n for n in assigned_names(r[0]) if n not in params and not n.startswith("_"))
             rng.shuffle(names)
-            for n in names[:per]:
-                jobs.append((prop, t.name, q, n))
+            if MODE == "uncomp":
+                ncomp = len([n for n in ast.walk(r[0]) if isinstance(n, ast.Assign) and isinstance(n.value, ast.ListComp)])
+                for k in range(min(ncomp, per)):
+                    jobs.append((prop, t.name, q, k))
+            elif MODE == "ifswap":
+                nif = len([n for n in ast.walk(r[0]) if isinstance(n, ast.If) and n.orelse and
+                           not (len(n.orelse) == 1 and isinstance(n.orelse[0], ast.If))])
+                for k in range(min(nif, per)):
+                    jobs.append((prop, t.name, q, k))
+            else:
+                for n in names[:per]:
+                    jobs.append((prop, t.name, q, n))
     print("jobs", len(jobs), flush=True)
     out = []
     with Pool(12, maxtasksperchild=8) as p:
